@@ -23,6 +23,7 @@ RULE = ("every whitelisted type (scalar and list) x value alphabet as a 2-field 
 CELLS = ["''", "'a'", "'a,b'", "'a;b'", "'a|b'", "'a\\tb'", "'q\"uote'", "'\"\"'", "'l\\nf'", "'cr\\rx'", "'crlf\\r\\nx'", "' lead'", "'trail '",
          "'\\xe9\\u20ac\\U0001f600'", "'\\udc80'", "'=1+1'", "'a\\x00b'", "S('z', 300)", "None", "'\\''", "'#c'", "'a\\\\b'"]
 _n = [0]
+TIER = ["quick"]
 
 
 def small(v):
@@ -40,7 +41,7 @@ def cases(tier, seed):
         for a in ["None", "[]"] + ["[%s]" % x for x in al] + ["[%s, %s]" % (al[0], al[-1])]:
             yield {"kind": "value", "t": t + "[]", "records": [rs("x/v", [[t + "[]", "v"], ["string", "c"]], [a, "'cell'"])]}
     for c in CELLS:
-        for c2 in CELLS[:8]:
+        for c2 in (CELLS if tier == "thorough" else CELLS[:8]):
             yield {"kind": "cell", "t": "string", "records": [rs("x/c", [["string", "c"], ["string", "d"], ["varint", "n"]], [c, c2, "7"])]}
     A = rs("x/a", [["string", "s"], ["varint", "n"]], ["'a,1'", "1"])
     B = rs("x/b", [["string", "t"], ["path", "p"], ["string", "s"]], ["'b\\n2'", "'/p'", "'sb'"])
@@ -297,7 +298,7 @@ def run_case(case):
     csv_opts = [(None, None, None)]
     line_opts = [(None, None, False), (None, None, True)]
     specs = [None]
-    if case["kind"] in ("cell", "seq") or int(h, 16) % 4 == 0:
+    if case["kind"] in ("cell", "seq") or int(h, 16) % 4 == 0 or TIER[0] == "thorough":
         csv_opts += [([names0[0]], None, None), (names0[::-1], None, "\\n"), (None, [names0[0]], "\\r\\n"), (names0 + ["zz"], ["_generated"], "\n"),
                      (["_source", names0[-1]], [names0[-1]], None), (None, ["_source", "_classification", "_generated", "_version"], "\\r")]
         line_opts += [([names0[0]], None, False), (None, [names0[0]], True), (names0 + ["zz"], ["_version"], False)]
@@ -318,6 +319,7 @@ def run_case(case):
 
 
 def main(tier, seed, workers=None):
+    TIER[0] = tier
     run = Run(PROP, "exploration", tier, seed, RULE)
     run.assumptions = ["the text form of a value is str(value) ('' for None in CSV); the printable representation of a record is "
                        "<name field=repr(value) ...>", "option sets beyond the default are applied to cell/sequence cases and to a quarter of the value cases"]
